@@ -96,7 +96,10 @@ CHECKS = {
         text='Every path of the real jira_checks (check_issue_reference, get_jira_issue, check_project, check_issue_type, '
              'check_fix_versions, bypass_jira_check) on symbolic flags/memberships and an arbitrary subset of a 6-version '
              'fixVersions universe; z3 decides outcome class == statement oracle per path; the repository stub raises if touched. '
-             'rx2z3 lemmas: the two version filters and the ticket-key group languages equal their specification.',
+             'rx2z3 lemmas: the two version filters and the ticket-key group languages equal their specification. Histories (DESIGN 12): '
+             'complete jobs on the symbolic repository with a ticket tracker whose ticket is edited (solver-chosen state) before each of '
+             '3 (thorough 4) evaluations: outcome per current state, refusals leave the repository alone and are the robot\'s latest '
+             'message with the current details.',
         note='Source names and target-version lists are enumerated (concrete); precedence among several failing conditions '
              'follows the statement order.',
         design='3/C11', technique=TECH),
@@ -108,7 +111,8 @@ CHECKS = {
              'element of the addressed-comment grammar). rx2z3: handled source/destination languages. Histories (DESIGN 11): on the '
              'symbolic repository a hold (wait; after_pull_request on an open PR) is added before / after a first evaluation, the PR is '
              'evaluated twice (no ref update, nothing but the hold message), the hold is lifted (comment removed / dependency merged) and '
-             'the next evaluation must equal the evaluation of the never-held PR from the same state.',
+             'the next evaluation must equal the evaluation of the never-held PR from the same state. A pull request declined before / after '
+             'its first evaluation and evaluated twice only sees deletions of its integration branches (DESIGN 12).',
         note='Partial: hold positions are those of the listed histories (2 targets, no-queue and queue mode); what happens after the '
              'clone belongs to other properties.',
         design='3/C12', technique=TECH),
@@ -132,19 +136,25 @@ CHECKS = {
     'C16': dict(
         text='Real simplecmd.cmd/_do_cmd with a Popen stub under symbolic mode (success, exit code, timeout, OSError), return code, '
              'str/bytes and log level; real lib.git Repository/Branch methods inside the real process_task with the k-th git '
-             'command failing (symbolic k, mode); real github Client flows through a scripted session with symbolic status codes. '
+             'command failing (symbolic k, mode); real github Client flows through a scripted session with symbolic status codes; the real '
+             'GitHub (password, App with a really signed JWT) and Bitbucket clients on their real BertESession with a mounted host adapter '
+             'that fails at a chosen exchange (connection error, timeout, HTTP 401-502, once or persistently; DESIGN 12). '
              'Sinks: returned output, exception text and rendered traceback chain, every log record, stdout, job.status/details/'
              'as_json. CrossHair lemma on the masking primitive; structural check that mask and clone-URL password use the same '
              'function.',
         note='Fault placement is solver-chosen but finite (fault enumeration in nature); secrets are concrete sentinels '
-             '(URL-special, shell-special, non-ASCII). Comment bodies over histories and the requests library are outside.',
+             '(URL-special, shell-special, non-ASCII); the wire part explores a finite schedule space (documents are concrete per path). '
+             'Comment bodies over histories and what urllib3 itself logs are outside.',
         design='3/C16', technique=TECH + '; CrossHair contract on the masking primitive'),
     'C17': dict(
-        text='(a) real AggregatedWorkflowRuns.state on 0-3 (thorough 4) symbolic workflow runs: SUCCESSFUL only if some branch is '
+        text='(a) real AggregatedWorkflowRuns.state on 0-3 symbolic workflow runs: SUCCESSFUL only if some branch is '
              'all-green after dropping workflow_dispatch runs and keeping a best run per workflow. (b) green-verdict cache as an '
              'inductive step from an arbitrary cache content through each real webhook handler / poll with a symbolic host answer. '
-             '(c) real LRUCache against a functional z3 reference under symbolic get/set sequences.',
-        note='Event / status object constructors (schema validation) are stubbed; workflow ids and branches are labelled in order '
+             '(c) real LRUCache against a functional z3 reference under symbolic get/set sequences. (b\') histories of polls and status '
+             'events over 2 commits x 2 keys through the real GitHub / Bitbucket clients, schemas and webhook handlers against an RFC 7232 '
+             'host model mounted as transport adapter (ETag / Last-Modified / none; DESIGN 12).',
+        note='In (b) event / status object constructors (schema validation) are stubbed, in (b\') nothing is, but documents are concrete '
+             'per path (JSON and digests are C code): exhaustive over a finite schedule space. Workflow ids and branches are labelled in order '
              'of appearance (symmetry reduction).',
         design='3/C17', technique=TECH),
     'C18': dict(
@@ -187,7 +197,9 @@ CHECKS['C15'] = dict(
          'tips are symbolic, git log A..B is decided commit by commit. z3 decides per path: reset refuses iff the integration branch '
          'holds manual work (least-fixpoint oracle unrolled in z3, contributor merge commits count), a refusing reset touches '
          'nothing, a completing one deletes exactly the integration branches of this PR and declines exactly its integration PRs. '
-         'Bounded: 4 commits (thorough 5), one integration branch.',
+         'Bounded: 4 commits (thorough 5), one integration branch. Histories (DESIGN 12): reset / force_reset (solver-chosen) asked '
+         'twice (thorough: three times, 3 targets, queue mode) on a pull request without manual work with ordinary evaluations in '
+         'between: each deletes exactly its integration branches and is followed by a rebuild.',
     note='Partial/bounded. Assumes git log lists children before parents and that the robot only authors merge commits. Sampled '
          'path witnesses and every counterexample are rebuilt as real repositories (real authors, parents) and run through the '
          'real code with /usr/bin/git.',
